@@ -10,6 +10,7 @@ mod mi;
 mod tr;
 mod tr19;
 mod sess;
+mod sysloop;
 mod util;
 mod wire;
 
@@ -26,6 +27,7 @@ fn run_line(prop: &str, args: &[&str]) -> String {
         "C18" => tr::run18(args),
         "C19" => tr19::run19(args),
         "C06" => conn::run(args),
+        "C01" | "C12" | "C02" if args[0] == "sys" => sysloop::op_sys(args[1].parse().unwrap(), args[2].parse().unwrap(), args[3].parse().unwrap(), args[4]),
         "C08" if args[0] == "resp" => tr19::run19(args),
         "C08" | "C09" | "C10" | "C11" | "C20" | "C01" => hand::run(args),
         "C07" => wire::run(args),
@@ -59,7 +61,14 @@ fn gen(prop: &str, rng: &mut Rng, n: usize) -> Vec<String> {
         "C06" => conn::gen(rng, n),
         "C08" | "C09" | "C10" | "C11" | "C20" | "C01" => hand::gen(rng, n, prop),
         "C07" => wire::gen(rng, n),
-        "C12" => sess::gen12(rng, n),
+        "C12" => {
+            // manager histories (events scripted), then the closed loop: the same events produced by real connection tasks
+            let mut v = sess::gen12(rng, n);
+            for _ in 0..(n / 100).max(5) {
+                v.push(sysloop::gen_sys(rng));
+            }
+            v
+        }
         "C15" => bcodec::gen15(rng, n),
         "C16" => bcodec::gen16(rng, n, std::env::args().nth(5).map(|t| t == "thorough").unwrap_or(false)),
         "C13" => sess::gen13(rng, n),
